@@ -1,7 +1,7 @@
 (* Properties_C01.v -- C01: a reported convergence is truthful (residual, iteration count).
-   Statements only; proofs in KrylovProofs.v.  Models: Krylov.v (cg, bicgstab, richardson,
-   gmres, fgmres; lgmres / bicgstabl / idrs are covered by the implementation-side oracle of
-   tools/props/C01.py only).
+   Statements only; proofs in KrylovProofs.v and KrylovProofs2*.v.  Models: Krylov.v (cg, bicgstab,
+   richardson, gmres, fgmres, lgmres, bicgstabl) and KrylovIdrs.v (idrs): all eight solvers; the
+   theorems about lgmres / bicgstabl / idrs are in the second half of this file.
    "any S"  : every Scalar record (IEEE floats with NaN included), A and P arbitrary functions.
    "ring"   : commutative ring with decidable equality; A, P linear and length preserving.
    [true_res nrm A P left f x] = nrm (f - A x)  (nrm (P (f - A x)) for left preconditioning);
